@@ -30,7 +30,8 @@ PROPS = [
                                "C13_same_document_full_refuted", "C13_cache_names_injective", "C13_method_names_separate"],
      ["K2", "K11", "K13", "K13C"]),
     ("props/C13_decode.vo", ["C13_format_dialects_leave_namedtuple_mode", "C13_merge_namedtuple_mode", "C13_decode_keys_and_nt_mode",
-                             "C13_same_decode_plan_partial", "C13_same_decode_plan_full_refuted"], ["K2", "K13", "K13C"]),
+                             "C13_same_decode_plan_partial", "C13_same_decode_plan_full_refuted", "C13_format_no_copy_table",
+                             "C13_no_copy_user_wins", "C13_no_copy_format_default"], ["K2", "K13", "K13C"]),
 ]
 
 BOOL_OPTS = ("omit_none", "omit_default", "serialize_by_alias", "namedtuple_as_dict")
@@ -1038,6 +1039,8 @@ def replay(rep: dict) -> int:
         return 0
     if entry == "codec":
         return CD.replay(rep)
+    if entry == "ntmode":
+        return DOC.ntmode_replay(rep)
     if entry == "merge-mutation":
         print("see correspondence log; not replayable stand-alone")
         return 2
